@@ -307,12 +307,15 @@ func checkDispatch(p *an.Prog, r *an.Run) {
 	name := an.FuncName(h)
 	reqPrm := h.Params[2]
 	var bad []string
+	// the registry lookup, in Handle itself or in a helper that returns (method, found)
 	var lk *ssa.Lookup
-	an.AllInstrs(h, func(in ssa.Instruction) {
-		if l, ok := in.(*ssa.Lookup); ok && memMapField(l.X) == "registry" {
-			lk = l
-		}
-	})
+	for _, rf := range regionFuncs(p, h) {
+		an.AllInstrs(rf, func(in ssa.Instruction) {
+			if l, ok := in.(*ssa.Lookup); ok && memMapField(l.X) == "registry" && l.CommaOk {
+				lk = l
+			}
+		})
+	}
 	var parse, invoke ssa.CallInstruction
 	for _, c := range an.Calls(h, false) {
 		if an.IsFunc(an.CallObj(c), pkgRPC, "parsePositionalArguments") {
@@ -322,11 +325,61 @@ func checkDispatch(p *an.Prog, r *an.Run) {
 			invoke = c
 		}
 	}
-	if lk == nil || !lk.CommaOk || parse == nil || invoke == nil {
+	if lk == nil || parse == nil || invoke == nil {
 		r.Fail("dispatch", name, h.Pos(), "Handle does not look the method up in the registry (comma-ok), parse positional arguments and invoke it")
 		return
 	}
-	dk := p.Derives(0, lk.Index)
+	// values of Handle that stand for the lookup's method (index 0) and found flag (index 1)
+	lkVals := map[int]map[ssa.Value]bool{0: {}, 1: {}}
+	if lk.Parent() == h {
+		for _, ref := range *lk.Referrers() {
+			if ex, ok := ref.(*ssa.Extract); ok {
+				lkVals[ex.Index][ex] = true
+			}
+		}
+	} else {
+		helper := lk.Parent()
+		for _, c := range an.Calls(h, false) {
+			if c.Common().StaticCallee() != helper || c.Value() == nil {
+				continue
+			}
+			for ri := 0; ri < helper.Signature.Results().Len(); ri++ {
+				which := -1
+				okAll := true
+				an.AllInstrs(helper, func(in ssa.Instruction) {
+					ret, ok := in.(*ssa.Return)
+					if !ok || ri >= len(ret.Results) {
+						return
+					}
+					ex, ok := ret.Results[ri].(*ssa.Extract)
+					if !ok || ex.Tuple != ssa.Value(lk) {
+						okAll = false
+						return
+					}
+					if which != -1 && which != ex.Index {
+						okAll = false
+					}
+					which = ex.Index
+				})
+				if okAll && which >= 0 {
+					for _, ref := range *c.Value().Referrers() {
+						if ex, ok := ref.(*ssa.Extract); ok && ex.Index == ri {
+							lkVals[which][ex] = true
+						}
+					}
+				}
+			}
+		}
+	}
+	fromLookup := func(d *an.Deriv, idx int) bool {
+		for v := range lkVals[idx] {
+			if d.HasValue(v) {
+				return true
+			}
+		}
+		return false
+	}
+	dk := p.DerivesIn(h, 0, lk.Index)
 	if !dk.HasParam(reqPrm) || !dk.HasFieldNamed("Request", "Method") {
 		bad = append(bad, "the registry is not looked up by the request's method name")
 	}
@@ -340,22 +393,23 @@ func checkDispatch(p *an.Prog, r *an.Run) {
 	// found edge
 	var foundIf *ssa.If
 	var foundSucc int
-	for _, ref := range *lk.Referrers() {
-		if ex, ok := ref.(*ssa.Extract); ok && ex.Index == 1 {
-			for _, r2 := range *ex.Referrers() {
-				if iff, ok := r2.(*ssa.If); ok {
-					foundIf, foundSucc = iff, 0
-				}
-				if u, ok := r2.(*ssa.UnOp); ok && u.Op == token.NOT {
-					for _, r3 := range *u.Referrers() {
-						if iff, ok := r3.(*ssa.If); ok {
-							foundIf, foundSucc = iff, 1
-						}
-					}
-				}
-			}
+	an.AllInstrs(h, func(in ssa.Instruction) {
+		iff, ok := in.(*ssa.If)
+		if !ok {
+			return
 		}
-	}
+		v, w := iff.Cond, 0
+		for {
+			if u, ok := v.(*ssa.UnOp); ok && u.Op == token.NOT {
+				v, w = u.X, 1-w
+				continue
+			}
+			break
+		}
+		if lkVals[1][v] {
+			foundIf, foundSucc = iff, w
+		}
+	})
 	if foundIf == nil {
 		bad = append(bad, "the lookup's ok result is not branched on")
 	} else {
@@ -383,11 +437,11 @@ func checkDispatch(p *an.Prog, r *an.Run) {
 	if d := p.Derives(0, pa[0]); !d.HasParam(reqPrm) || !d.HasFieldNamed("Request", "Params") {
 		bad = append(bad, "the arguments parsed are not the request's params")
 	}
-	if d := p.Derives(0, pa[1]); !derivesFromLookup(d, lk) || !d.HasFieldNamed("Method", "ArgTypes") {
+	if d := p.Derives(0, pa[1]); !fromLookup(d, 0) || !d.HasFieldNamed("Method", "ArgTypes") {
 		bad = append(bad, "the parameter types used for parsing are not those of the method that was looked up")
 	}
 	ia := invoke.Common().Args
-	if d := p.Derives(0, ia[0]); !derivesFromLookup(d, lk) {
+	if d := p.Derives(0, ia[0]); !fromLookup(d, 0) {
 		bad = append(bad, "the method invoked is not the one that was looked up")
 	}
 	if d := p.Derives(0, ia[2]); !derivesFromCall(d, parse.(*ssa.Call)) {
